@@ -267,6 +267,11 @@ def check_C15(ctx, rep):
                     if isinstance(x, tuple) and x and x[0] == 'fld' and x[2].endswith('SimQueue'):
                         sides.add(x[3])
         rep.ob('C15.R2', fn, 'both-sides', sides == {'client', 'server'}, 'consults %s' % sorted(sides))
+    check_no_normal_packets_table(ctx, rep, 'C15.R2')
+    rep.rule('C15.R5', 'trace parser: in parse_trace_advanced a NormalSent is queued for the client only under a successful comparison of the '
+             'direction field with the literal "s" or "sn", for the server only under "r" or "rn" (so "sp"/"rp" padding lines and anything '
+             'else never create a packet); every queued event is a NormalSent')
+    check_trace_parser_table(ctx, rep, 'C15.R5')
     ps = prog.fn(SIM, 'SimQueue', 'push_sim')
     psa = an.get(ps)
     pfps = an.paths(ps, history=True)
@@ -507,6 +512,10 @@ def check_C16(ctx, rep):
              'bypassable, queue::peek_non_blocking treats it as free exactly when it is; peek_queue_earliest_side passes the side\'s own flag')
     check_bypass_classification(ctx, rep, 'C16.R5')
     check_pop_blocking(ctx, rep, 'C16.R5')
+    rep.rule('C16.R6', 'replacement of a padding by the queued normal packet (PaddingSent arm of sim_network_stack): the queued packet is taken '
+             'out of the blocked queue and marked bypassable only on paths where the padding itself carries the bypass flag (next.bypass), '
+             'whatever the active blocking allows; the flags of the active blocking only select the queue that is peeked/popped')
+    check_replace_promotion(ctx, rep, 'C16.R6')
     rep.assumptions += ['which queued packet leaves while blocked (peek selection among queues) is NOT decided',
                         'every CFG path is treated as feasible']
     return 'handler tables for blocking in the simulator, Option-slot typestate, producer inventory, side consistency of the bypass decision'
@@ -1512,6 +1521,158 @@ def check_pop_blocking(ctx, rep, rid):
                     ok = (tracked or '').endswith('::Blocking') or val == ('param', pq) or (val[0] == 'phi' and ('param', pq) in val[1])
                     rep.ob(rid, fn, 'blocking-heap-under-bypassable-blocking', ok, 'pop(%s)' % shape(val)[:40])
     rep.count_floor(rid, 'pop sites in SimQueue::pop_blocking', n, 1)
+
+
+PENDING_KIND = {
+    # heap of EventQueue -> the event kind that stands for a normal packet still in flight there
+    # (EventQueue::push routes TunnelSent to blocking/bypassable, NormalSent to base, everything else to internal;
+    #  a packet on its way to the receiver is the TunnelRecv in the internal heap)
+    'blocking': 'TunnelSent', 'bypassable': 'TunnelSent', 'internal': 'TunnelRecv',
+}
+
+
+def check_no_normal_packets_table(ctx, rep, rid):
+    """EventQueue::no_normal_packets (the stop condition of the simulation): every scan of a heap looks for the event kind
+    that a pending normal packet has in THAT heap.  Judged on normal form N2, where `.iter().all(|e| ..)`, `.any(..)`, an
+    extracted helper and a hand-written loop are the same loop."""
+    prog2, an2 = ctx.n2()
+    fn = prog2.fn(SIM, 'EventQueue', 'no_normal_packets')
+    fa = an2.get(fn)
+    loops = fa.cfg.loops()
+    seen = {}
+    for h, body in loops.items():
+        heaps = set()
+        kinds = set()
+        for (b, f, a, t) in calls(fa):
+            if b not in body:
+                continue
+            cs = callee_str(f)
+            if callee_decl(f).endswith('Iterator::next') or cs.endswith('Iterator>::next'):
+                it = a[0]
+                if it[0] == 'ref' and it[1][0] == 'local':
+                    for (bb, kk, part) in fa.defs().get(it[1][1], []):
+                        for x in walk(fa.def_value(it[1][1], bb, kk)):
+                            if isinstance(x, tuple) and x and x[0] == 'fld' and x[2].endswith('EventQueue') and x[3] in PENDING_KIND and root_of(x) == ('param', 1):
+                                heaps.add(x[3])
+                # by-value iterator held in a local that the receiver reborrows
+                for x in walk(it):
+                    if isinstance(x, tuple) and x and x[0] == 'fld' and x[2].endswith('EventQueue') and x[3] in PENDING_KIND:
+                        heaps.add(x[3])
+            if decl_matches(f, ('PartialEq::eq', 'PartialEq::ne')) and len(a) == 2:
+                ev = [x for x in a if contains(x, lambda y: isinstance(y, tuple) and y and y[0] == 'fld' and y[3] == 'event' and y[2].endswith('SimEvent'))]
+                if ev:
+                    for x in a:
+                        xs = [x]
+                        if x[0] in ('ref', 'refv') and isinstance(x[1], tuple) and x[1] and x[1][0] == 'local':
+                            xs.append(fa.local_value(x[1][1], (b, len(fa.blocks[b]['s']))))
+                        for x2 in xs:
+                            for y in walk(x2):
+                                if isinstance(y, tuple) and y and y[0] == 'agg' and y[1].endswith('event::TriggerEvent'):
+                                    kinds.add(y[2])
+        if len(heaps) == 1:
+            seen.setdefault(heaps.pop(), set()).update(kinds)
+    for heap, kind in PENDING_KIND.items():
+        got = seen.get(heap)
+        rep.ob(rid, fn, 'pending-kind:' + heap, got == {kind},
+               'no_normal_packets scans %s for %s (a pending normal packet there is a %s)' % (heap, sorted(got) if got is not None else 'nothing', kind))
+
+
+DIRECTION_LITERALS = {True: ('"s"', '"sn"'), False: ('"r"', '"rn"')}
+
+
+def _dir_ok(S, lits):
+    for f in S:
+        if f[0] == 'cmp' and f[1] == 'eq' and f[5] is True:
+            for x, y in ((f[2], f[3]), (f[3], f[2])):
+                if isinstance(y, tuple) and y and y[0] == 'ktext' and y[2] in lits:
+                    return True
+                if isinstance(y, tuple) and y and y[0] == 'refv' and isinstance(y[1], tuple) and y[1] and y[1][0] == 'ktext' and y[1][2] in lits:
+                    return True
+    return False
+
+
+def check_trace_parser_table(ctx, rep, rid):
+    prog, an = ctx.prog, ctx.an
+    fn = sim_fn(prog, 'parse_trace_advanced')
+    fa = an.get(fn)
+    loops = fa.cfg.loops()
+    n = 0
+    for (b, kind, a) in push_calls(fa):
+        if kind != 'push':
+            continue
+        n += 1
+        ev = a[1]
+        rep.ob(rid, fn, 'queues-NormalSent-only', ev[0] == 'agg' and ev[2] == 'NormalSent', 'push(%s)' % shape(ev))
+        hs = sorted((len(body), h) for h, body in loops.items() if b in body)
+        if not hs:
+            rep.ob(rid, fn, 'push-inside-the-line-loop', False, '')
+            continue
+        h = hs[-1][1]   # outermost loop: one iteration = one trace line
+        pf = an.paths(fn, history=True, entry=h)
+        c = num(a[2])
+        if c is None:
+            # one push for both sides (`let is_client = match dir { "s" | "sn" => true, .. }`): judged per path with the
+            # constant this path assigned to the flag
+            op = fa.blocks[b]['t']['a'][2]
+            pl_ = op.get('m') or op.get('c')
+            okp = pl_ is not None and not pl_['pr']
+            sides_seen = set()
+            for S in (pf.at_call(b) if okp else []):
+                tc = pf.tracked_const(S, pl_['l'])
+                if tc not in ('0', '1'):
+                    okp = False
+                    break
+                sd = tc == '1'
+                sides_seen.add(sd)
+                okd = _dir_ok(S, DIRECTION_LITERALS[sd])
+                rep.ob(rid, fn, 'direction-literal-guards-push:%s' % ('client' if sd else 'server'), okd,
+                       '' if okd else 'witness: ' + show_facts(S)[:600])
+            rep.ob(rid, fn, 'side-is-a-literal-per-direction', okp and sides_seen == {True, False}, 'client = %s' % shape(a[2]))
+            continue
+        side = bool(c)
+        lits = DIRECTION_LITERALS[side]
+
+        def dir_ok(S):
+            return _dir_ok(S, lits)
+
+        def _unused(S):
+            for f in S:
+                if f[0] == 'cmp' and f[1] == 'eq' and f[5] is True:
+                    for x, y in ((f[2], f[3]), (f[3], f[2])):
+                        if isinstance(y, tuple) and y and y[0] == 'ktext' and y[2] in lits:
+                            return True
+                        if isinstance(y, tuple) and y and y[0] == 'refv' and isinstance(y[1], tuple) and y[1] and y[1][0] == 'ktext' and y[1][2] in lits:
+                            return True
+            return False
+        ok, w = all_paths(pf.at_entry(b), dir_ok)
+        rep.ob(rid, fn, 'direction-literal-guards-push:%s' % ('client' if side else 'server'), ok,
+               'NormalSent for the %s only under direction == %s' % ('client' if side else 'server', ' | '.join(lits)) + ('' if ok else '; witness: ' + show_facts(w)[:600]))
+    rep.count_floor(rid, 'SimQueue::push sites in parse_trace_advanced', n, 1)
+
+
+def check_replace_promotion(ctx, rep, rid):
+    prog, an = ctx.prog, ctx.an
+    ns = sim_fn(prog, 'sim_network_stack')
+    fa = an.get(ns)
+    pf = an.paths(ns, history=True)
+    nxt = lambda e, fld: is_field(e, fld, 'SimEvent') and root_of(e) == ('param', 1)
+
+    def own_flag(S):
+        return any(f[0] == 'btrue' and f[2] is True and nxt(f[1], 'bypass') for f in S)
+    n = 0
+    # stores of `true` into the bypass field of an event held in a local (the popped entry)
+    for (pe, v, site, mp) in stores(fa):
+        lf = last_field(pe)
+        if lf and lf[1] == 'bypass' and lf[0].endswith('SimEvent') and is_const(v, 1) and root_of(pe)[0] == 'local':
+            n += 1
+            ok, w = all_paths(pf.at(site[0], site[1]), own_flag)
+            rep.ob(rid, ns, 'queued-packet-marked-bypassable-only-by-bypass-padding', ok, '' if ok else 'witness: ' + show_facts(w))
+    for (b, f, a, t) in calls(fa):
+        if callee_str(f).endswith('SimQueue::pop_blocking'):
+            n += 1
+            ok, w = all_paths(pf.at_entry(b), own_flag)
+            rep.ob(rid, ns, 'queued-packet-popped-only-by-bypass-padding', ok, '' if ok else 'witness: ' + show_facts(w))
+    rep.count_floor(rid, 'promotion sites (bypass = true stores, pop_blocking calls) in sim_network_stack', n, 2)
 
 
 def check_bypass_classification(ctx, rep, rid):
